@@ -172,6 +172,10 @@ func (aead *aesCBCAEAD) Open(dst, nonce, ciphertext, additionalData []byte) ([]b
 	if len(ciphertext) < aead.tagSize {
 		return nil, errors.New("invalid ciphertext size")
 	}
+	// Without the tag, the ciphertext must be a whole number of AES blocks
+	if (len(ciphertext)-aead.tagSize)%aes.BlockSize != 0 {
+		return nil, errors.New("invalid ciphertext size")
+	}
 
 	// Remove the tag from the end of the ciphertext
 	ciphertextTag := ciphertext[len(ciphertext)-aead.tagSize:]
